@@ -241,6 +241,9 @@ ResetSt(st) == [st EXCEPT !.conn = "D", !.inc = 0, !.tok = (@ + 1) % TokenMod, !
 (* apply_update / handle_apply_summary (lib.rs:1239-1313)                  *)
 
 HandleApplySummary(c, s, u, bcast) ==
+    \* serialize_member(update)? - the codec may refuse the member (the harness' tiny codec cannot
+    \* represent generations above 15): the error is returned before any effect of the summary
+    IF s.ok /\ bcast /\ ~Representable(c.st.codec, u.id) THEN Fail(c, "Err:Encode") ELSE
     LET st == c.st
         c1 == IF s.ok /\ bcast
               THEN [c EXCEPT !.st.upd = AddUpdate(@, st.codec, u, st.cfg.maxtx)]
@@ -276,7 +279,9 @@ ChangeIdentity(c, new) ==
              s1 == [ResetSt(st) EXCEPT !.id = new]
              s2 == IF prevDown THEN s1
                    ELSE [s1 EXCEPT !.upd = AddUpdate(@, st.codec, DownOf(st.id), st.cfg.maxtx)]
-         IN Gossip([c EXCEPT !.st = s2])
+         IN IF ~prevDown /\ ~Representable(st.codec, st.id)
+            THEN Fail([c EXCEPT !.st = s1], "Err:Encode")     \* serialize_member(down(previous))? after the switch
+            ELSE Gossip([c EXCEPT !.st = s2])
 
 \* r = TRUE when the instance switched to a renewed identity
 AttemptRejoin(c) ==
@@ -606,7 +611,8 @@ DoLeave(st, tape, hl, dbg) ==
     LET c == Ctx(st, tape, hl, dbg)
         c1 == [c EXCEPT !.st.upd = AddUpdate(@, st.codec, DownOf(st.id), st.cfg.maxtx)]
         c2 == Gossip(c1)
-    IN Finish(IF Live(c2) THEN BecomeUndead(c2) ELSE c2, "Ok")
+    IN IF ~Representable(st.codec, st.id) THEN Finish(Fail(c, "Err:Encode"), "Ok")
+       ELSE Finish(IF Live(c2) THEN BecomeUndead(c2) ELSE c2, "Ok")
 
 DoChangeIdentity(st, a, tape, hl, dbg) == Finish(ChangeIdentity(Ctx(st, tape, hl, dbg), a.id), "Ok")
 
